@@ -1060,7 +1060,9 @@ impl Server {
                             transactions::handle_watch(conn, parts, &self.storage)
                         }).unwrap_or_else(|| Ok(RespFrame::error("ERR connection not found")));
                     }
-                    "UNWATCH" => {
+                    // Inside MULTI, UNWATCH is queued like any other command (it must not forget
+                    // the watched keys before EXEC has checked them)
+                    "UNWATCH" if !in_transaction => {
                         return self.connections.with_connection(conn_id, |conn| {
                             transactions::handle_unwatch(conn, &self.storage)
                         }).unwrap_or_else(|| Ok(RespFrame::error("ERR connection not found")));
@@ -1266,6 +1268,10 @@ impl Server {
             "EXPIRE" => self.handle_expire(parts, db),
             "TTL" => self.handle_ttl(parts, db),
             "SELECT" => self.handle_select(parts, conn_id),
+            // A queued UNWATCH runs here at EXEC time (EXEC has already forgotten the watched keys)
+            "UNWATCH" => self.connections.with_connection(conn_id, |conn| {
+                transactions::handle_unwatch(conn, &self.storage)
+            }).unwrap_or_else(|| Ok(RespFrame::error("ERR connection not found"))),
             "FLUSHDB" => self.handle_flushdb(parts, db),
             "FLUSHALL" => self.handle_flushall(parts),
             "DBSIZE" => self.handle_dbsize(parts, db),
